@@ -133,9 +133,11 @@ PROPS_ALLOWED = re.compile(
     r"^\s*(From\s.*Require\s+Import.*|Require\s+Import.*|Import\s.*|Theorem\s|Proof\.|Qed\.|exact\s|Print\s+Assumptions\s|Check\s|Open\s+Scope|Local\s+Open\s+Scope|$)")
 
 
-def proof_status(prop_id):
+def proof_status(prop_id, coqchk=False):
     """Compiles Props/<id>.v afresh (its dependencies via make), returns
-    dict(obligations, discharged, theorems=[(name, assumptions)], problems=[...])."""
+    dict(obligations, discharged, theorems=[(name, assumptions)], problems=[...]).
+    coqchk=True (thorough tier): also re-checks the compiled Props module and everything it
+    depends on with the independent checker and records its context summary."""
     res = {"obligations": 0, "discharged": 0, "theorems": [], "problems": []}
     pf = os.path.join(COQ, "Props", prop_id + ".v")
     if not os.path.exists(pf):
@@ -191,6 +193,21 @@ def proof_status(prop_id):
     if hits:
         res["problems"].append("forbidden vernacular: " + "; ".join(hits[:10]))
         res["discharged"] = 0
+    if coqchk and ok:
+        rc, out = run(["timeout", "3000", "coqchk", "-silent", "-o", "-Q", ".", "RV", "RV.Props." + prop_id], cwd=COQ)
+        summ = out[out.find("CONTEXT SUMMARY"):] if "CONTEXT SUMMARY" in out else out[-600:]
+        res["coqchk"] = " ".join(summ.split())[:900]
+        if rc != 0:
+            res["problems"].append("coqchk rejects Props/%s.vo: %s" % (prop_id, out[-600:]))
+        else:
+            m = re.search(r"\* Axioms:(.*?)\* Constants", summ, re.S)
+            axs = [a.strip() for a in (m.group(1).split("\n") if m else []) if a.strip() and a.strip() != "<none>"]
+            bad = [a for a in axs if a.split()[0] not in ALLOWED_AXIOMS]
+            if bad:
+                res["problems"].append("coqchk reports non-allowlisted axioms: %s" % bad)
+            if "type-in-type: <none>" not in " ".join(summ.split()) or "positivity is assumed: <none>" not in " ".join(summ.split()) \
+               or "unsafe (co)fixpoints: <none>" not in " ".join(summ.split()):
+                res["problems"].append("coqchk context summary reports disabled kernel checks: " + res["coqchk"][:300])
     return res
 
 
